@@ -25,6 +25,9 @@ EFFECT_PREFIXES = ("std::fs::", "std::env::", "std::time::", "std::process::", "
                    "std::cell::", "std::os::", "std::path::Path::is_", "std::path::Path::exists", "std::path::Path::metadata", "std::path::Path::read_dir")
 
 
+OUTPUT_ONLY = ("std::io::_print", "std::io::_eprint")  # progress / diagnostic text on stdout / stderr: written, never read back, so no verdict can depend on it
+
+
 def run(ctx, crate):
     obs = []
     # R15.globals
@@ -61,7 +64,7 @@ def run(ctx, crate):
     for b in reach.values():
         for s in S.call_sites(b):
             for p in {s.path, s.resolved}:
-                if p.startswith(EFFECT_PREFIXES):
+                if p.startswith(EFFECT_PREFIXES) and p not in OUTPUT_ONLY:
                     eff.append((b, s, p))
         # statics accessed
     for (b, s, p) in eff:
